@@ -149,19 +149,23 @@ fn check(case: &SemCase, net0: &Net, fs: &[F]) -> Verdict {
         formulas[i] = format!("({}) | {{unbound}}", formulas[i]);
     }
     let eol = if layout & 1 != 0 { "\r\n" } else { "\n" };
+    // layout bit 5: comment lines are indented (surrounding whitespace applies to them as well: the
+    // reader trims a line before it looks for `#`); bit 6: no blank after `#`, trailing blanks
+    let cpre = if layout & 32 != 0 { " \t  " } else { "" };
+    let (chash, cpost) = if layout & 64 != 0 { ("#", "  \t") } else { ("# ", "") };
     let mut file = String::new();
     if layout & 2 != 0 {
-        file.push_str(&format!("# formulae for the test{eol}"));
+        file.push_str(&format!("{cpre}{chash}formulae for the test{cpost}{eol}"));
     }
     for (i, f) in formulas.iter().enumerate() {
         if layout & 4 != 0 && i > 0 {
-            file.push_str(&format!("{eol}   {eol}#  EF a{eol}"));
+            file.push_str(&format!("{eol}   {eol}{cpre}{chash} EF a{cpost}{eol}"));
         }
         let (pre, post) = if layout & 8 != 0 { ("  \t", " \t ") } else { ("", "") };
         file.push_str(&format!("{pre}{f}{post}{eol}"));
     }
     if layout & 16 != 0 {
-        file.push_str(&format!("{eol}# trailing comment"));
+        file.push_str(&format!("{eol}{cpre}{chash}trailing comment{cpost}"));
     }
     std::fs::write(path("formulae.txt"), &file).unwrap();
 
@@ -435,7 +439,7 @@ impl Property for C17 {
         "C17"
     }
     fn rule(&self) -> String {
-        "each case runs the hctl-model-checker binary built from /repo's working tree: random network written as aeon / bnet / sbml file x formula file with 1-3 closed formulae and a random layout (comment lines, blank lines, surrounding blanks and tabs, LF or CRLF) x print option (default, summary, no-print, with-progress, exhaustive) x optional context archive (built with matching k) for extended formulae. Oracle: archived sets BDD-equal to model_check_multiple_*_dirty on get_extended_symbolic_graph(bn, max depth), in file order; printed result / colour / state counts equal those of the library sets and of the explicit semantics; exhaustive listing == state projection; error inputs (garbage model, invalid formula, free variable, missing label, non-zip archive, corrupt .bdd entry, missing files) give a message, exit code 0, no archive. Deterministic stage: exhaustive listings of up to 2^9 (thorough 2^11) states on ring networks, compared with the library's vertex iterator. Non-trivial: an error input, or >= 2 formulae separated by comment/blank lines with a non-trivial result.".into()
+        "each case runs the hctl-model-checker binary built from /repo's working tree: random network written as aeon / bnet / sbml file x formula file with 1-3 closed formulae and a random layout (comment lines - first-column or indented, with or without a blank after `#` -, blank lines, surrounding blanks and tabs, LF or CRLF) x print option (default, summary, no-print, with-progress, exhaustive) x optional context archive (built with matching k) for extended formulae. Oracle: archived sets BDD-equal to model_check_multiple_*_dirty on get_extended_symbolic_graph(bn, max depth), in file order; printed result / colour / state counts equal those of the library sets and of the explicit semantics; exhaustive listing == state projection; error inputs (garbage model, invalid formula, free variable, missing label, non-zip archive, corrupt .bdd entry, missing files) give a message, exit code 0, no archive. Deterministic stage: exhaustive listings of up to 2^9 (thorough 2^11) states on ring networks, compared with the library's vertex iterator. Non-trivial: an error input, or >= 2 formulae separated by comment/blank lines with a non-trivial result.".into()
     }
     fn assumptions(&self) -> Vec<String> {
         vec![
